@@ -217,9 +217,9 @@ def correspond(ctx, proof_ok=True):
     if not ok:
         raise RuntimeError('C09/Model.v does not build:\n' + log[-2000:])
     rng = ctx.rng
-    calls = [gen_fit(rng, i) for i in range(ctx.n(72, 1200))]
-    calls += [gen_ill(rng, i) for i in range(ctx.n(48, 800))]
-    calls += [gen_chol(rng, i) for i in range(ctx.n(90, 1500))]
+    calls = [gen_fit(rng, i) for i in range(ctx.n(72, 500))]
+    calls += [gen_ill(rng, i) for i in range(ctx.n(48, 300))]
+    calls += [gen_chol(rng, i) for i in range(ctx.n(90, 600))]
     nb = 8
     outs = C.run_impl_parallel('c09_impl.py', [calls[i::nb] for i in range(nb)])
     results = [None] * len(calls)
@@ -330,7 +330,7 @@ def correspond(ctx, proof_ok=True):
         'spec_violations': sum(1 for v in verdicts if v & 2),
         'samples': [{'call': {k: v for k, v in calls[i].items() if k != 'extra'},
                      'impl': {k: v for k, v in results[i].items() if k in ('status', 'coeff', 'ret', 'x', 'mask_after')}}
-                    for i in (0, ctx.n(72, 1200), len(calls) - 1)],
+                    for i in (0, ctx.n(72, 500), len(calls) - 1)],
     })
     for t, i, v in zip(terms, owners, verdicts):
         if v == 0:
